@@ -1,5 +1,6 @@
 import DdsModel.EncTotal
 import DdsModel.EncTotal64
+import DdsModel.EncBcSites
 import DdsModel.Drv.C02
 namespace Dds.Drv.C15
 open Dds Dds.Drv Dds.EncTotal
@@ -66,7 +67,8 @@ def encodePixel (fmt : String) (r g b a : ExtReal) : Option Nat :=
 /-- `E <path> <format> <w> <h> <color> <pitchExtra> <content> <cseed> <quality> <dither> <metric> <parallel> <k|->`
 — colour, pitch, content, options do not influence the predicted result: that is the property.
 `Q <format> <r> <g> <b> <a>`; `S <rbits> <gbits> <bbits>`;
-`U <format> <rbits> <gbits> <bbits> <abits>`; `W <format> <rbits> <gbits> <bbits> <abits>` -/
+`U <format> <rbits> <gbits> <bbits> <abits>`; `W <format> <rbits> <gbits> <bbits> <abits>`;
+`T <format> <rbits> <gbits> <bbits>` -/
 def runC15 (line : String) : String :=
   match toks line with
   | ["E", path, fmt, w, h, color, pitch, content, cseed, q, d, m, par, k] =>
@@ -76,7 +78,7 @@ def runC15 (line : String) : String :=
       let optsOk := ["fast", "normal", "high", "unr"].contains q && ["none", "color", "alpha", "both"].contains d
         && ["uni", "perc"].contains m && ["0", "1"].contains par
         && ["ord", "nan", "pinf", "ninf", "nzero", "huge", "sub", "h65504", "gt1", "lt0", "mix", "bits",
-            "nanalpha", "onepx", "zero", "max"].contains content
+            "nanalpha", "onepx", "zero", "max", "flat", "close2", "edge"].contains content
       match fault with
       | none => "bad-case"
       | some fault =>
@@ -137,6 +139,28 @@ def runC15 (line : String) : String :=
       | some v => s!"px {v}"
       | none => "panic"
     | _, _, _, _ => "bad-case"
+  | ["T", fmt, r, g, b] =>
+    -- a 4x4 block of one colour (bit patterns, alpha 1.0) through the flat-block paths of bc4.rs / bc1.rs
+    match nat? r, nat? g, nat? b with
+    | some r, some g, some b =>
+      if r ≥ 2 ^ 32 ∨ g ≥ 2 ^ 32 ∨ b ≥ 2 ^ 32 then "bad-case" else
+      let pr (tag : String) (res : Option (Option (List Nat))) : String :=
+        match res with
+        | none => "panic"
+        | some none => "search"
+        | some (some l) => tag ++ String.join (l.map fun x => s!" {x}")
+      let bc4 (snorm : Bool) : String :=
+        match EncBcSites.bc4Flat snorm r with
+        | some none =>
+          match EncBcSites.bc4FlatSearch snorm r with
+          | none => "panic"
+          | some (c0, c1) => s!"pair {min c0 c1} {max c0 c1}"
+        | res => pr "blk" res
+      if fmt == "BC4_UNORM" then bc4 false
+      else if fmt == "BC4_SNORM" then bc4 true
+      else if fmt == "BC1_UNORM" then pr "ends" (EncBcSites.bc1Flat r g b)
+      else "bad-case"
+    | _, _, _ => "bad-case"
   | _ => "bad-case"
 
 end Dds.Drv.C15
